@@ -15,6 +15,8 @@ use vcommon::decoders::{x86_follow, X86End};
 #[derive(Serialize, Deserialize, Clone, Debug, Hash, PartialEq, Eq)]
 pub enum TargetSel {
     Real(u8),
+    /// the `poll` of a real async function, faked with will_return_async (kernel-chosen trampoline)
+    RealAsync(u8),
     /// synthetic `mov eax,id; ret` at (class range base + page*4096 + off)
     Synth { class: u8, page: u64, off: u16, boolean: bool },
 }
@@ -118,15 +120,83 @@ pub fn text_range() -> (u64, u64) {
 
 const FAKE_ID: u32 = 0x00FA_CE01;
 
+fn execute_async(which: u8, callers: u8) -> PlaceObs {
+    use crate::asyncs::{a_u32, a_u64_ref, poll_addr, run};
+    let mut o = PlaceObs { text: text_range(), ..Default::default() };
+    let r0 = 5u64;
+    let addr = if which % 2 == 0 { poll_addr(&a_u32(0)) } else { poll_addr(&a_u64_ref(&r0)) };
+    o.target_addr = addr as u64;
+    o.pre = crate::mem::read_direct(addr, 32);
+    o.orig_value = if which % 2 == 0 { 8 } else { 8 };
+    crate::worker::phase("install");
+    let res = std::panic::catch_unwind(|| {
+        ip::sut(|| {
+            let mut inj = InjectorPP::new();
+            if which % 2 == 0 {
+                inj.when_called_async(injectorpp::async_func!(a_u32(0), u32)).will_return_async(injectorpp::async_return!(4242u32, u32));
+            } else {
+                let r = 0u64;
+                inj.when_called_async(injectorpp::async_func!(a_u64_ref(&r), u64)).will_return_async(injectorpp::async_return!(4242u64, u64));
+            }
+            inj
+        })
+    });
+    o.during = crate::mem::read_direct(addr, 32);
+    let inj = match res {
+        Ok(i) => i,
+        Err(_) => {
+            o.status = "refused".into();
+            o.panic = Some(crate::worker::last_panic());
+            return o;
+        }
+    };
+    o.status = "installed".into();
+    o.expected_value = 4242;
+    let m = ProcMem::new();
+    let mut out = x86_follow(&m, addr as u64, &[], 6);
+    if let Some(h) = out.hops.iter().find(|h| **h >= o.text.0 && **h < o.text.1) {
+        out.end = X86End::Arrived { at: *h };
+    }
+    o.decode_end = format!("{:?}", out.end);
+    o.decode_hops = out.hops.clone();
+    o.decode_trace = out.trace.clone();
+    if let X86End::Arrived { at } = out.end {
+        o.arrived = Some(at);
+        crate::worker::phase("call");
+        o.executed = true;
+        let one = move || -> u64 {
+            if which % 2 == 0 { run(a_u32(7)).0 as u64 } else { let r = 5u64; run(a_u64_ref(&r)).0 }
+        };
+        o.calls.push(one());
+        let n = callers.min(4) as usize;
+        if n > 0 {
+            let vals: Vec<u64> = std::thread::scope(|s| (0..n).map(|_| s.spawn(one)).collect::<Vec<_>>().into_iter().map(|h| h.join().unwrap_or(u64::MAX)).collect());
+            o.calls.extend(vals);
+        }
+    }
+    crate::worker::phase("drop");
+    let _ = std::panic::catch_unwind(std::panic::AssertUnwindSafe(|| ip::sut(|| drop(inj))));
+    o.post = crate::mem::read_direct(addr, 32);
+    if o.post == o.pre {
+        o.after_drop_value = Some(if which % 2 == 0 { run(a_u32(7)).0 as u64 } else { let r = 5u64; run(a_u64_ref(&r)).0 });
+    }
+    o.log = log_events(&ip::log_take());
+    o
+}
+
 /// Worker side.
 pub fn execute(c: &PlaceCase) -> PlaceObs {
     let mut o = PlaceObs { text: text_range(), ..Default::default() };
     ip::plan_reset();
     ip::log_clear();
+    if let TargetSel::RealAsync(k) = &c.target {
+        return execute_async(*k, c.callers);
+    }
     let reals = targets::real_targets();
     // ---- target
     let mut _target_arena: Option<Arena> = None;
     let target = match &c.target {
+        TargetSel::RealAsync(_) => unreachable!(),
         TargetSel::Real(i) => {
             let mut r = reals;
             let i = *i as usize % r.len();
@@ -352,6 +422,7 @@ pub fn strategy() -> impl Strategy<Value = PlaceCase> {
     ];
     let target = prop_oneof![
         2 => (0u8..9).prop_map(TargetSel::Real),
+        1 => (0u8..2).prop_map(TargetSel::RealAsync),
         6 => (0u8..5, any::<u64>(), off, prop::bool::weighted(0.25)).prop_map(|(class, page, off, boolean)| TargetSel::Synth { class, page, off, boolean }),
     ];
     let tramp = prop_oneof![
@@ -372,6 +443,7 @@ pub fn strategy() -> impl Strategy<Value = PlaceCase> {
     (target, tramp, fake, prop_oneof![3 => Just(0u8), 1 => 1u8..=4]).prop_map(|(target, tramp, fake, callers)| {
         // a synthetic fake needs a dictated trampoline; real targets keep the kernel's choice
         let (tramp, fake) = match (&target, tramp, fake) {
+            (TargetSel::RealAsync(_), _, _) => (TrampSel::Kernel, FakeSel::Rust { kind: Kind::Raw, k: 0 }),
             (TargetSel::Real(_), _, FakeSel::Synth { .. }) => (TrampSel::Kernel, FakeSel::Rust { kind: Kind::Raw, k: 0 }),
             (TargetSel::Real(_), _, f) => (TrampSel::Kernel, f),
             (_, TrampSel::Kernel, FakeSel::Synth { d, api }) => (TrampSel::Pages((d % 1000) as i32), FakeSel::Synth { d, api }),
